@@ -223,6 +223,13 @@ VARIANTS = [
     V("twin: finalize_kwargs copied with a dict display", ("C14",), "", "aggregations.py", '        agg.finalize_kwargs = copy.deepcopy(finalize_kwargs)', '        agg.finalize_kwargs = {**finalize_kwargs}', expect="silent"),
     V("eager arg reduction unravels the final-dtype slot without an integer cast", ("C19",), "R-INTINDEX", "core.py", '        results["intermediates"][0] = np.unravel_index(\n            results["intermediates"][0].astype(np.intp, copy=False), array.shape\n        )[-1]', '        results["intermediates"][0] = np.unravel_index(results["intermediates"][0], array.shape)[-1]', must_mention="only int indices"),
     V("interpolation stores into the requested dtype under same-kind casting", ("C19",), "R-INPLACECAST", "aggregate_flox.py", '    np.add(a, diff_b_a * t, out=out, casting="unsafe")', '    np.add(a, diff_b_a * t, out=out)', must_mention="UFuncTypeError"),
+    V("groupers factorized largest first, results gathered with the same permutation", ("C07",), "R-PAIRS[groupers]", "core.py", '            futures = [\n                executor.submit(partial(_factorize_single, sort=sort, reindex=reindex), groupvar, expect)\n                for groupvar, expect in zip(by, expected_groups)\n            ]\n            results = tuple(f.result() for f in futures)', '            order = sorted(range(len(by)), key=lambda i: by[i].size, reverse=True)\n            futures = [\n                executor.submit(partial(_factorize_single, sort=sort, reindex=reindex), by[i], expected_groups[i])\n                for i in order\n            ]\n            results = tuple(futures[i].result() for i in order)', must_mention="permut"),
+    V("twin: groupers submitted by position", ("C07",), "", "core.py", '                executor.submit(partial(_factorize_single, sort=sort, reindex=reindex), groupvar, expect)\n                for groupvar, expect in zip(by, expected_groups)\n', '                executor.submit(partial(_factorize_single, sort=sort, reindex=reindex), by[i], expected_groups[i])\n                for i in range(len(by))\n', expect="silent"),
+    V("numbagg widening target narrowed to float32 for 16-bit integers", ("C20", "C01"), "R-CASTORDER", "aggregate_numbagg.py", '            if np.issubdtype(array.dtype, from_):\n                array = array.astype(to_, copy=False)', '            if np.issubdtype(array.dtype, from_):\n                if to_ is np.float64 and array.dtype.itemsize <= 2:\n                    to_ = np.float32\n                array = array.astype(to_, copy=False)', must_mention="float32"),
+    V("twin: numbagg widening table keyed by the abstract integer type", ("C20", "C01"), "", "aggregate_numbagg.py", '    "nanmean": {np.int_: np.float64},\n    "nanvar": {np.int_: np.float64},\n    "nanstd": {np.int_: np.float64},', '    "nanmean": {np.integer: np.float64},\n    "nanvar": {np.integer: np.float64},\n    "nanstd": {np.integer: np.float64},', expect="silent"),
+    V("leftover partition of a tree level aliased to its first block", ("C09", "C03"), "R-WHOLEPART", "dask_array_ops.py", '        free = {i: j[0] for (i, j) in enumerate(p) if len(j) == 1 and i not in split_every}', '        free = {i: j[0] for (i, j) in enumerate(p) if i not in split_every}', must_mention="first block"),
+    V("maybe_promote treats floats like integers (float32 widened)", ("C11",), "R-PROMOTEIDEM", "xrdtypes.py", '    if np.issubdtype(dtype, np.floating):\n        fill_value = np.nan\n    elif np.issubdtype(dtype, np.timedelta64):\n        # See https://github.com/numpy/numpy/issues/10685\n        # np.timedelta64 is a subclass of np.integer\n        # Check np.timedelta64 before np.integer\n        fill_value = np.timedelta64("NaT")\n    elif np.issubdtype(dtype, np.integer):\n', '    if np.issubdtype(dtype, np.timedelta64):\n        fill_value = np.timedelta64("NaT")\n    elif np.issubdtype(dtype, np.integer) or np.issubdtype(dtype, np.floating):\n', must_mention="float32"),
+    V("twin: maybe_promote tests floats after the integers", ("C11",), "", "xrdtypes.py", '    if np.issubdtype(dtype, np.floating):\n        fill_value = np.nan\n    elif np.issubdtype(dtype, np.timedelta64):\n        # See https://github.com/numpy/numpy/issues/10685\n        # np.timedelta64 is a subclass of np.integer\n        # Check np.timedelta64 before np.integer\n        fill_value = np.timedelta64("NaT")\n    elif np.issubdtype(dtype, np.integer):\n        dtype = np.float32 if dtype.itemsize <= 2 else np.float64\n        fill_value = np.nan\n', '    if np.issubdtype(dtype, np.timedelta64):\n        fill_value = np.timedelta64("NaT")\n    elif np.issubdtype(dtype, np.integer):\n        dtype = np.float32 if dtype.itemsize <= 2 else np.float64\n        fill_value = np.nan\n    elif np.issubdtype(dtype, np.floating):\n        fill_value = np.nan\n', expect="silent"),
     V("dtype promotion memoised with an untyped key", ("C14",), "R-MEMO", "xrdtypes.py", '        dtype = np.result_type(dtype, fill_value)\n    return dtype\n',
       '        dtype = _promote_for_fill_value(dtype, fill_value)\n    return dtype\n\n\n@functools.lru_cache\ndef _promote_for_fill_value(dtype: np.dtype, fill_value) -> np.dtype:\n    return np.result_type(dtype, fill_value)\n', must_mention="typed"),
     V("twin: dtype promotion memoised with typed=True", ("C14",), "", "xrdtypes.py", '        dtype = np.result_type(dtype, fill_value)\n    return dtype\n',
